@@ -80,7 +80,7 @@ PROPS["C05"] = {
                                  "the consumers other than Valid (RawMessage encode/decode, unknown-field skip, array surplus, MarshalJSON output, Decoder framing) call the proved recogniser parseValue; their own glue is covered by correspondence with encoding/json only"],
     "assumptions": ["inputs shorter than 2^62 bytes"],
     "claim": {
-        "text": "Theorems (Properties/C05.v) about the Gallina translation of json.Valid / parseValue / parseString / parseNumber / internalParseFlags (regenerated from the source on every run): for EVERY byte string Valid equals the RFC 8259 recogniser (Json/Grammar.v) "
+        "text": "Theorems (Properties/C05.v) about the Gallina translation of json.Valid / parseValue / parseString / parseNumber / internalParseFlags (regenerated from the source on every run): for EVERY byte string shorter than 2^62 bytes Valid equals the RFC 8259 recogniser (Json/Grammar.v) "
                 "and hence encoding/json.Valid up to the 10000-container limit; parseValue - the recogniser all syntax-only consumers call - accepts exactly the grammar and consumes exactly the value, including the 8/16-byte quote search (lane proof) and the whole-input flag shortcuts. "
                 "The glue of the other consumers (RawMessage, MarshalJSON output, unknown fields, array surplus, Decoder framing) is compared with encoding/json on the exhaustive <=3-symbol family and generated documents.",
         "note": "Trusted: Coq kernel, translator, grammar transcription (tied to encoding/json.Valid by correspondence on ~400k strings per run), extraction+driver, harness. Nesting beyond 10000 (accepted by the package, rejected by encoding/json) and stack exhaustion belong to C06.",
@@ -112,14 +112,14 @@ PROPS["C07"] = {
     "trusted_base": PROTO_TB,
     "assumptions": ["universe of target types as in C03; inputs shorter than 2^31 bytes"],
     "claim": {
-        "text": "Theorems (Properties/C07.v): for every supported target type and EVERY byte string the model's decode/Unmarshal returns a value or an error - never Panic (all Go slice bounds are checked in the model) and within fuel linear in the input - "
+        "text": "Theorems (Properties/C07.v): for every supported target type and EVERY byte string shorter than 2^31 bytes the model's decode/Unmarshal returns a value or an error - never Panic (all Go slice bounds are checked in the model) and within fuel linear in the input - "
                 "with 0 <= consumed <= len. Unknown fields (Proto/UnknownProofs.v): inserting ANY well-formed field with an undeclared number (any of the four wire types, padded varints, numbers 0 and above 2^16 included) at ANY field boundary of a message - top level (unknown_insert_decode, unknown_insert: also for byte arrays, RawMessage fields and maps with pointer values, and when other fields fail to decode: same error class, same partial value) or inside embedded messages at any depth with the enclosing length prefixes re-encoded (unknown_nested, unknown_nested_many) - leaves the decoded value and the error class unchanged; "
-                "the two provisos are necessary (unknown_insert_any_target_refuted: an empty input resets a populated target while unknown-only input merges into it; unknown_nested_any_refuted: an empty map-entry payload is the F34 quirk). Scan accepts exactly the sequences of complete fields and never panics (scan_total, scan_boundary). Allocation is not modelled.",
+                "the two provisos are necessary (unknown_insert_any_target_refuted: an empty input resets a populated target while unknown-only input merges into it; unknown_nested_any_refuted: an empty map-entry payload is the quirk recorded as C12's finding F34). Scan accepts exactly the sequences of complete fields and never panics (scan_total, scan_boundary). Allocation is not modelled.",
         "note": "Trusted as C16. Recursive message types (unbounded Go stack) are outside the finite-descriptor universe; memory allocation is not modelled.",
     },
 }
 PROPS["C03"]["claim"] = {
-    "text": "Theorems (Properties/C03.v) on the proto model: Marshal never fails and returns exactly Size(v) bytes for every value of the universe; encode/size agreement for every codec and flag word; the round trip Unmarshal(Marshal(&v)) = v up to nil-vs-empty "
+    "text": "Theorems (Properties/C03.v) on the proto model: Marshal never fails and returns exactly Size(v) bytes for every value of the universe whose encoding is shorter than 2^31 bytes; encode/size agreement for every codec and flag word; the round trip Unmarshal(Marshal(&v)) = v up to nil-vs-empty "
             "for every supported type (nesting, pointers, repeated fields and maps of any size, zigzag/fixed tags, byte arrays, RawMessage) and every representable value. The exclusions are explicit boolean predicates, each shown necessary by a machine-checked counterexample "
             "(recorded finding F17: a non-nil pointer to a message with empty encoding decodes as nil; a top-level pointer to an empty RawMessage; a 'rep' tag on a non-repeated field).",
     "note": "Trusted as C16; map iteration order is the list order of the model (Go's random order is canonicalised by sorting in the harness).",
@@ -201,31 +201,31 @@ PROPS["C17"] = {
 }
 
 PROPS["C11"]["claim"] = {
-    "text": "Theorems (Properties/C11.v) on the Decoder model: for EVERY reader script (any chunking, zero-length reads, data with the terminal error) over EVERY byte stream the decoder returns exactly the grammar's value stream of the concatenated bytes, then io.EOF at a clean end and another error otherwise; "
+    "text": "Theorems (Properties/C11.v) on the Decoder model: for EVERY error-free reader script (any chunking, zero-length reads, data returned with the final io.EOF; scripts whose reader fails are the separate theorem stream_failing) over EVERY byte stream shorter than 2^30 bytes the decoder returns exactly the grammar's value stream of the concatenated bytes, then io.EOF at a clean end and another error otherwise; "
             "two scripts with the same bytes give the same values and terminal condition; a failing reader gives a prefix of the values then the reader's error; InputOffset never decreases and after every value lies between the end of that value and the start of the next (offset_range); Buffered followed by the undelivered data is exactly the input from InputOffset on (buffered_unconsumed, buffered_rest); "
             "Parse's framing returns as remainder exactly the bytes after the first value and its trailing white space, an error when there is no value, and Unmarshal's acceptance is the grammar's (parse_remainder, parse_unmarshal). Error stickiness is decided by correspondence.",
     "note": "Trusted: Coq kernel; the hand-written Decoder model tied by correspondence on every run (model = implementation on streams up to 300 bytes under 8 delivery modes and every failure offset; longer streams are compared with encoding/json only); the regenerated scanner; extraction+driver; harness. Streams are bounded by 2^30 bytes in the theorems (int arithmetic of the buffer growth).",
 }
 PROPS["C17"]["claim"] = {
-    "text": "Theorems (Properties/C17.v) on the tokenizer model: for EVERY valid document the tokenizer yields exactly the grammar-derived delimiters and scalars in order with Depth/Index/IsKey of every scalar and opening delimiter and no error; the token values concatenate to the compacted document; "
+    "text": "Theorems (Properties/C17.v) on the tokenizer model: for EVERY valid document (shorter than 2^62 bytes, nesting up to the 10000 levels encoding/json allows) the tokenizer yields exactly the grammar-derived delimiters and scalars in order with Depth/Index/IsKey of every scalar and opening delimiter and no error; the token values concatenate to the compacted document; "
             "for EVERY byte string it terminates within len+1 calls of Next with every Value the sub-slice ending Remaining bytes before the end; Next after an error returns false and changes nothing. Reset and pooled-stack reuse (Json/TokenReuseModel.v: the scope stack as a backing array with its stale slots, the pool under an arbitrary Get policy): a tokenizer Reset from ANY prior state, or built on ANY stack handed out by the pool, produces the token stream of a fresh tokenizer (next_refines, stale_irrelevant, reset_like_new, pooled_like_new, history_like_new), and only Reset clears the error (err_sticky_c, err_only_reset, reset_clears_err). "
             "Kind/String/Int/Uint/Float/Bool are decided by correspondence (accessor values vs strconv/encoding/json on every scalar token).",
     "note": "Trusted: Coq kernel; the hand-written tokenizer model tied by correspondence on every run (model = implementation on all strings of <= 3 class symbols and ~10^4 structured documents); the regenerated scanner; extraction+driver; harness. The concrete Reset/pool model is a hand transcription of token.go (field by field) tied to the code through the reused-vs-fresh correspondence cases only.",
 }
 PROPS["C04"]["claim"] = {
-    "text": "Theorems (Properties/C04.v) on the thrift model: for both protocols, every supported struct type (ids in any order and spacing, gaps > 15, ranges > 64, required/optional/enum, bools in nested and pointer positions, lists, sets, maps, nested and pointer-to structs) and every value whose required fields are set, "
+    "text": "Theorems (Properties/C04.v) on the thrift model: for both protocols, every supported struct type (ids in any order and spacing, gaps > 15, ranges > 64, required/optional/enum, bools in nested and pointer positions, lists, sets, maps, nested and pointer-to structs) and every value whose required fields are set and whose encoding is shorter than 2^31 bytes, "
             "Unmarshal(Marshal(v)) = v up to nil-vs-empty (and -0.0 = 0.0), and the two protocols decode each other's logical content to the same value. Reset of Encoder/Decoder is covered by correspondence (a reused encoder/decoder vs a fresh one).",
     "note": "Trusted: Coq kernel, the hand-written thrift model tied by correspondence (model = implementation on ~6.4k random type/value/protocol cases per run), extraction+driver, harness. Strict/non-strict binary differ only in message headers, which are outside the model; unions and unsigned kinds are outside the universe.",
 }
 PROPS["C08"]["claim"] = {
-    "text": "Theorems (Properties/C08.v) on the thrift model: EVERY byte string decodes to a value or an error for either protocol and any target type - the bitset index check and the collection-size handling can never panic, fuel is linear in the input; "
-            "every proper prefix of a valid encoding yields io.EOF (empty) or an unexpected-EOF class error; trailing bytes are reported. Unknown fields (t_unknown_fields: any number of undeclared fields of any type at every field boundary of the top-level struct, both protocols, decode to the narrow result), MissingField (t_missing_field, t_absent_optional) and wrong wire types (t_mismatch_strict: TypeMismatch in strict mode; t_mismatch_skipped, t_mismatch_list: skipped entirely in non-strict mode, the other fields unaffected) are theorems too. Allocation behaviour (runs under an address-space limit), unknown fields inside nested structs and the set/map mismatch variants are decided by correspondence. Further (Thrift/SpecD.v): unknown fields at ANY nesting depth - through struct fields, list items, map values and pointers, relation widens - decode to the narrow value up to tnorm from Marshal's bytes and from every alternative conformant encoding, in strict and non-strict mode (t_unknown_nested, t_widen_accept, t_widen_decode); every proper prefix of every alternative and of every widened encoding is an EOF-class error and trailing bytes are reported (t_widen_alt_prefix_eof, t_alt_prefix_eof, t_widen_prefix_eof, t_widen_alt_trailing); a declared set or map whose wire item, key or value type differs is skipped as a whole in non-strict mode and is a TypeMismatch in strict mode, with the empty-collection special cases stated (t_mismatch_set*, t_mismatch_map*, t_mismatch_list_empty), also as a field of a struct whose other fields are unaffected (t_mismatch_coll_field_*); no accepted input announces a negative count: the header readers, the typed decoders and the skip paths all reject it (t_header_size_nonneg, t_negative_*), lengths and compact counts of 2^31 and more are refused, and a count larger than the bytes that follow makes every decoder fail (t_oversized_*). The negative-count theorems were first REFUTED on the model (a skipped list of size -1 was accepted as empty); the witness replayed on the real code was a genuine defect, repaired as 4734263, after which the universal statement was proved.",
-    "note": "Trusted as C04. Memory allocation is observed (ulimit -v), not modelled. Two genuine defects were found through this property's model and repaired (non-strict type mismatch did not skip the value / the collection items).",
+    "text": "Theorems (Properties/C08.v) on the thrift model: EVERY byte string shorter than 2^31 bytes decodes to a value or an error for either protocol and any target type of the universe - the bitset index check and the collection-size handling can never panic, fuel is linear in the input; "
+            "every proper prefix of a valid encoding yields io.EOF (empty) or an unexpected-EOF class error; trailing bytes are reported. Unknown fields (t_unknown_fields: any number of undeclared fields of any type at every field boundary of the top-level struct, both protocols, decode to the narrow result), MissingField (t_missing_field, t_absent_optional) and wrong wire types (t_mismatch_strict: TypeMismatch in strict mode; t_mismatch_skipped, t_mismatch_list: skipped entirely in non-strict mode, the other fields unaffected) are theorems too. Allocation behaviour (runs under an address-space limit), Decoder.Reset keeping the strict mode, sources that are plain io.Readers and the nesting depth (open finding F47: no depth limit, a few million nested undeclared structs overflow the stack) are decided by correspondence. Further (Thrift/SpecD.v): unknown fields at ANY nesting depth - through struct fields, list items, map values and pointers, relation widens - decode to the narrow value up to tnorm from Marshal's bytes and from every alternative conformant encoding, in strict and non-strict mode (t_unknown_nested, t_widen_accept, t_widen_decode); every proper prefix of every alternative and of every widened encoding is an EOF-class error and trailing bytes are reported (t_widen_alt_prefix_eof, t_alt_prefix_eof, t_widen_prefix_eof, t_widen_alt_trailing); a declared set or map whose wire item, key or value type differs is skipped as a whole in non-strict mode and is a TypeMismatch in strict mode, with the empty-collection special cases stated (t_mismatch_set*, t_mismatch_map*, t_mismatch_list_empty), also as a field of a struct whose other fields are unaffected (t_mismatch_coll_field_*); no accepted input announces a negative count: the header readers, the typed decoders and the skip paths all reject it (t_header_size_nonneg, t_negative_*), lengths and compact counts of 2^31 and more are refused, and a count larger than the bytes that follow makes every decoder fail (t_oversized_*). The negative-count theorems were first REFUTED on the model (a skipped list of size -1 was accepted as empty); the witness replayed on the real code was a genuine defect, repaired as 4734263, after which the universal statement was proved.",
+    "note": "Trusted as C04. Memory allocation is observed (ulimit -v), not modelled. Genuine defects found through this property's model and repaired: a non-strict type mismatch did not skip the value (11998ba) nor the collection items (8b305a9), MissingField named the wrong id (9b043b4), collections were allocated at the announced size (da2ce40), and negative counts were accepted on the skip paths (4734263, first a refuted theorem). Open: F47 (nesting depth).",
 }
 PROPS["C13"]["claim"] = {
-    "text": "Theorems (Properties/C13.v): the package's encoder model equals a transcription of the Apache Thrift binary and compact protocol specifications for every supported type and value once three recorded deviations are switched on in the transcription "
-            "(binary type codes, 3-byte binary stop field, big-endian compact doubles), and is refuted without them by concrete witnesses. Any other byte-level deviation breaks the theorem or the correspondence. Decode side (t_alt_accept): EVERY alternative conformant compact encoding - any combination of long and short forms of field and list/set headers - of every value of every supported type is accepted with the result obtained from Marshal's own bytes; the harness decodes such encodings with the real readers.",
-    "note": "Trusted as C04, plus the specification transcription (Thrift/Spec.v spec_enc and harness specEnc), written from memory of the specification documents: no Apache Thrift implementation is available offline; this is the weakest oracle of the development. Reader acceptance of alternative conformant encodings (long forms) is covered by the decoder theorems of C04/C08 only for the package's own output.",
+    "text": "Theorems (Properties/C13.v): the package's encoder model equals a transcription of the Apache Thrift binary and compact protocol specifications for every supported type and value once three recorded deviations (F27a, F27b, F27c) are switched on in the transcription "
+            "(binary type codes, 3-byte binary stop field, big-endian compact doubles), and is refuted without them by concrete witnesses. Any other byte-level deviation breaks the theorem or the correspondence. Decode side (t_alt_accept): EVERY alternative conformant compact encoding - any combination of long and short forms of field and list/set headers - of every value of every supported type is accepted with the result obtained from Marshal's own bytes, a list or set of bools announcing item type TRUE decodes like one announcing BOOL (t_bool_list_true); the harness decodes such encodings with the real readers. Two further recorded deviations are outside the Coq universe and are carried by the harness transcription alone: F27d (enum-tagged integers of other widths than int32) and F27e (message headers: types numbered from 0, version bits missing); the message headers are compared with the specification and across reader settings on every run (t.msg).",
+    "note": "Trusted as C04, plus the specification transcription (Thrift/Spec.v spec_enc and harness specEnc), written from memory of the specification documents: no Apache Thrift implementation is available offline; this is the weakest oracle of the development. Reader acceptance of alternative conformant encodings is the theorem t_alt_accept (and t_widen_accept of C08 for readers that declare fewer fields).",
 }
 
 # ---- C01 / C02: scalar core proved (build-C0102), the reflection-driven encoder/decoder decided differentially ----
@@ -280,7 +280,7 @@ PROPS["C02"]["claim"] = {
             "returns a value of the target type (c02tree_dec_shape), reads Marshal's output with any white space between tokens back as the normalised value (c02tree_dec_ws_roundtrip, c02tree_dec_ws), gives the zero value for null and clears only pointers, slices and maps on an inner null (c02tree_null, _null_inner), fills [n]T with what fits, zeroes the missing and skips surplus elements of any type (c02tree_arr_fit/_short/_long), "
             "decodes a struct from members in ANY order, under the exact name or a name equal up to ASCII case (first such field), with unknown members of any type anywhere (c02tree_obj_any_order, _obj_permutation, _apply_members_spec); its integer reader is the model over the machine-translated parseInt/parseUint (c02tree_dec_int_link); fuel is immaterial (c02tree_dec_fuel*). "
             "Everything else (interfaces, Unmarshalers, other key types, the string option, Unicode case folding of keys, histories of documents into one variable) is decided by correspondence with encoding/json on every run.",
-    "note": "Partial. Trusted as C01, plus: uq_lit / spec_unmarshal_string / spec_unmarshal_int are transcriptions of encoding/json's unquoteBytes and scanner behaviour checked against it on every run. Five recorded findings (F28, F31, F14, F30, F12b) are subtracted by type-shape class.",
+    "note": "Partial. Trusted as C01, plus: uq_lit / spec_unmarshal_string / spec_unmarshal_int are transcriptions of encoding/json's unquoteBytes and scanner behaviour checked against it on every run. Six recorded findings (F28, F31, F14, F30, F44, F45) are subtracted by type-shape class.",
 }
 
 # per-property fragments (lib/props_cXX.py defining ENTRY, and optionally CLAIM): one file per property so that
